@@ -80,13 +80,13 @@ def main():
             na.append({"property_id": p, "reason": NOT_YET.get(p, "not yet under contract in this commit")})
     m = {
         "version": 1,
-        "setup_cmd": "python3-vt -m compileall -q pyvc contracts spec replay >/dev/null 2>&1; python3-vt -c 'import z3; print(z3.get_version_string())'",
+        "setup_cmd": "python3-vt -m compileall -q pyvc contracts spec replay >/dev/null 2>&1; python3-vt -c 'import z3; print(z3.get_version_string())'; lean --version; /usr/bin/cvc5 --version | head -1",
         "hooks": {"guard": "PYAIRTOUCH_VERIF",
                   "enable": "no source hooks: contracts are sidecar files under /verif/contracts; pyvc re-reads /repo/pyairtouch on every run (PYVC_REPO overrides the path for scratch copies)",
                   "baseline_off_cmd": "cd /repo && /venv/bin/python -m pytest -ra -q -p no:cacheprovider --timeout=900 --continue-on-collection-errors",
                   "source_commits": [], "add_only": True},
         "engines": [{"name": "pyvc", "path": "/verif/pyvc", "serves_properties": [c["property_id"] for c in checks],
-                     "kind_free_text": "verification-condition generator over the real Python AST of /repo (symbolic execution function by function against sidecar contracts, loop contracts, interference at awaits); obligations discharged by z3 5.1, fallback cvc5 1.0.3 / z3 4.8; counterexamples replayed natively on the real package"}],
+                     "kind_free_text": "verification-condition generator over the real Python AST of /repo (symbolic execution function by function against sidecar contracts, loop contracts, interference at awaits); obligations discharged by z3 5.1, fallback cvc5 1.0.3 / z3 4.8; counterexamples replayed natively on the real package; history lemmas over the step contracts (lemmas/*.lean) re-checked by the Lean 4 kernel"}],
         "checks": checks,
         "notes": "Exit codes of ./check: 0 held (KNOWN-FINDING lines possible), 1 VIOLATION, 2 undecided, 3 checker error. known_findings.json lists recorded findings and the fix: commits made in /repo.",
         "not_applicable": na,
